@@ -78,7 +78,7 @@ def replay_chunk(args):
                         if it["k"] == "include" and it["name"] == "h.h" and rnd.random() < 0.6:
                             it["name"] = "hl.h"
                 tags = tags | {"link.header_name"}
-            m = scen.Mat(sc, base, seed=rnd.random())
+            m = scen.Mat(sc, base, dotted=True, seed=rnd.random())
             for fid, f in sc["files"].items():
                 if f["name"] == "h.h" and "link.header_name" in tags:
                     os.symlink("h.h", os.path.join(os.path.dirname(m.paths[fid]), "hl.h"))
